@@ -313,8 +313,9 @@ CALL_STUBS = [STUB_ASSUMPTIONS[0], STUB_ASSUMPTIONS[3],
 
 U_DEPTH = KaniUnit(
     "U-DEPTH", "FunctionDef::call: a rejected argument count or call_depth > 1000 is an error before the callee runs; "
-    "otherwise the callee runs exactly once with call_depth + 1 (all built-ins, all usize depths)",
-    modules=[("functions.rs", "verif_call.rs")], harnesses=["u_depth_builtin"],
+    "otherwise the callee runs exactly once with call_depth + 1 (all built-ins; the anonymous nullary lambda with an empty "
+    "captured scope; all usize depths), and the lambda body's result / failure is the call's",
+    modules=[("functions.rs", "verif_call.rs")], harnesses=["u_depth_builtin", "u_depth_lambda"],
     functions=[("functions.rs", "call", "FunctionDef"), ("functions.rs", "check_arity", "FunctionDef")],
     prepare=prep_call, timeout=1200, assumptions=CALL_STUBS)
 
